@@ -24,3 +24,6 @@ func VerifC03DnsUpstreams(st *DnsServer) Channels       { return st.upstreams }
 func VerifC03SocketListening(st *SocketServer) bool     { return st.listener != nil }
 func VerifC03PacketListening(st *PacketServer) bool     { return st.listener != nil }
 func VerifC03HttpListening(ws *HttpServer) bool         { return ws.server != nil }
+
+// VerifC03SocketAddr is the address the socket server actually listens on (it may have been given port 0)
+func VerifC03SocketAddr(st *SocketServer) string { return st.listener.Addr().String() }
